@@ -11,8 +11,10 @@ Proof. vm_compute. reflexivity. Qed.
 Theorem C07_init_clears_everything : init_complete cells init_clears = true.
 Proof. vm_compute. reflexivity. Qed.
 
-(* the recursion flags of all #[recursive_parser] functions fit the 128-bit flag word *)
-Theorem C07_recursive_flags_fit : recursive_fits recursive_parsers = true.
+(* the recursion flags of all #[recursive_parser] functions fit the flag word nom-recursive is built with
+   (its size is read from the features of the dependency in sv-parser-parser/Cargo.toml): otherwise a
+   thread that has met more than that many of them over its history panics where a fresh thread parses *)
+Theorem C07_recursive_flags_fit : recursive_fits recursive_parsers recursive_capacity = true.
 Proof. vm_compute. reflexivity. Qed.
 
 (* Hence: after ANY finite history of calls on the thread (accepted, rejected, aborted half-way,
